@@ -944,3 +944,37 @@ def render_stmt(rng, ast, canonical=False, force=None):
     r = Renderer(rng, canonical, force)
     lex = r.stmt(ast)
     return r.text(lex), lex, r
+
+
+def pad_to_buffer_boundary(rng, text, block=1024):
+    """The forked text/scanner reads its source in blocks of 1024 bytes. Widen one blank of the statement
+    (outside quoted literals) so that a later token starts a few bytes before a multiple of the block size and
+    straddles it (or ends exactly on it). Returns the text unchanged when it has no suitable blank."""
+    spots = []
+    q = None                                                    # the quote kind of the literal we are inside
+    for i, ch in enumerate(text):
+        if q is not None:
+            if ch == q:
+                q = None
+            continue
+        if ch in "'\"":
+            q = ch
+        elif ch == " " and i + 1 < len(text) and text[i + 1] not in " '\"" and (i == 0 or text[i - 1] not in "/*-"):
+            spots.append(i)
+    if not spots:
+        return text
+    i = rng.choice(spots[: max(1, len(spots) // 2)])            # an early blank: the tokens after it move
+    later = [j for j in spots if j >= i]
+    words = [j for j in later if text[j + 1].isalpha()]         # keywords and names are looked up by their text
+    j = rng.choice(words) if words and rng.random() < 0.8 else rng.choice(later)   # this token straddles the boundary
+    tok_start = j + 1
+    tok_len = 1
+    while tok_start + tok_len < len(text) and text[tok_start + tok_len] not in " ,();":
+        tok_len += 1
+    k = rng.choice([1, 1, 1, 2, 3])
+    inside = rng.randrange(0, tok_len + 1)                      # how many bytes of the token lie before the boundary
+    nbytes = len(text[:tok_start].encode("utf-8"))
+    pad = k * block - inside - nbytes
+    while pad < 0:
+        pad += block
+    return text[:i] + " " * (pad + 1) + text[i + 1:]
